@@ -13,8 +13,8 @@ from pvm import probes as P
 
 PROP = "C10"
 
-NAMES_IN = ["i1", "x", "e", "In_2", "alpha"]
-NAMES_OUT = ["o1", "y", "E1", "out_b", "z9"]
+NAMES_IN = ["i1", "x", "e", "In_2", "alpha", "e1", "E2"]  # e, e1, E2, E1, e3x: read as exponents if glued to a number
+NAMES_OUT = ["o1", "y", "E1", "out_b", "z9", "e3x"]
 
 
 def r4(x: float) -> float:
